@@ -42,12 +42,18 @@ structure GInv (t : Txn) (s : Store) : Prop where
 
 def AllTouched (t : Txn) (s : Store) : Prop := ∀ m ∈ t.muts, Touched t.start (s m.key)
 
-def SMono (S : Nat) (s s' : Store) : Prop := ∀ k, KMono S (s k) (s' k)
+/-- `k` is one of the transaction's keys -/
+def Txn.IsKey (t : Txn) (k : Nat) : Prop := ∃ m ∈ t.muts, m.key = k
 
-theorem SMono.refl (S : Nat) (s : Store) : SMono S s s := fun k => KMono.refl S (s k)
+theorem TxnWF.primIsKey {t : Txn} (wf : TxnWF t) : t.IsKey t.primary := wf.prim
 
-theorem SMono.trans {S : Nat} {a b c : Store} (h1 : SMono S a b) (h2 : SMono S b c) : SMono S a c :=
-  fun k => (h1 k).trans (h2 k)
+/-- nothing of T is lost on T's keys (other keys are none of T's business) -/
+def SMono (t : Txn) (s s' : Store) : Prop := ∀ k, t.IsKey k → KMono t.start (s k) (s' k)
+
+theorem SMono.refl (t : Txn) (s : Store) : SMono t s s := fun k _ => KMono.refl t.start (s k)
+
+theorem SMono.trans {t : Txn} {a b c : Store} (h1 : SMono t a b) (h2 : SMono t b c) : SMono t a c :=
+  fun k hk => (h1 k hk).trans (h2 k hk)
 
 theorem GInv.primKInv {t : Txn} {s : Store} (wf : TxnWF t) (h : GInv t s) :
     ∃ m ∈ t.muts, m.key = t.primary ∧ KInv t.start t.cv m (s t.primary) := by
@@ -67,14 +73,14 @@ theorem GInv.set {t : Txn} {s : Store} (wf : TxnWF t) (h : GInv t s) {m : Mut} (
     (gcP : m.key = t.primary → ¬ HasC t.start (s m.key) → HasC t.start ks' → AllTouched t s)
     (gcS : m.key ≠ t.primary → ¬ HasC t.start (s m.key) → HasC t.start ks' → HasC t.start (s t.primary))
     (grS : m.key ≠ t.primary → ¬ HasR t.start (s m.key) → HasR t.start ks' → HasR t.start (s t.primary)) :
-    GInv t (s.set m.key ks') ∧ SMono t.start s (s.set m.key ks') := by
+    GInv t (s.set m.key ks') ∧ SMono t s (s.set m.key ks') := by
   have okm := wf.ok hm
   have hkm := h.k m hm
   have kinv' : KInv t.start t.cv m ks' := hkm.step okm st
   have mono : KMono t.start (s m.key) ks' := st.mono okm hkm
   have hget : ∀ k, (s.set m.key ks') k = if k = m.key then ks' else s k := fun k => rfl
-  have smono : SMono t.start s (s.set m.key ks') := by
-    intro k
+  have smono : SMono t s (s.set m.key ks') := by
+    intro k _
     rw [hget]
     by_cases e : k = m.key
     · simp only [e, if_true]; exact mono
@@ -99,7 +105,7 @@ theorem GInv.set {t : Txn} {s : Store} (wf : TxnWF t) (h : GInv t s) {m : Mut} (
       · exact h.c m' hm' np old
       · exact gcS np old hc
     · simp only [e, if_false] at hc
-      exact (smono t.primary).c (h.c m' hm' np hc)
+      exact (smono t.primary wf.primIsKey).c (h.c m' hm' np hc)
   · intro m' hm' np hr
     rw [hget] at hr
     by_cases e : m'.key = m.key
@@ -112,7 +118,7 @@ theorem GInv.set {t : Txn} {s : Store} (wf : TxnWF t) (h : GInv t s) {m : Mut} (
       · exact h.r m' hm' np old
       · exact grS np old hr
     · simp only [e, if_false] at hr
-      exact (smono t.primary).r (h.r m' hm' np hr)
+      exact (smono t.primary wf.primIsKey).r (h.r m' hm' np hr)
   · intro hcP m' hm'
     by_cases ep : m.key = t.primary
     · -- the step is on the primary
@@ -135,7 +141,7 @@ theorem GInv.set {t : Txn} {s : Store} (wf : TxnWF t) (h : GInv t s) {m : Mut} (
           · exact Or.inr hc
           · have hrP : HasR t.start (s t.primary) := h.r m' hm' np hr
             have hrP' : HasR t.start ks' := by
-              have := (smono t.primary).r hrP
+              have := (smono t.primary wf.primIsKey).r hrP
               rwa [hP'] at this
             exact absurd ⟨hcP, hrP'⟩ (not_C_and_R kinv')
     · -- the step is on a secondary: the primary is unchanged
@@ -160,18 +166,36 @@ theorem GInv.set {t : Txn} {s : Store} (wf : TxnWF t) (h : GInv t s) {m : Mut} (
           have hrP := grS ep (not_R_of_noRec hn) newR
           exact absurd ⟨hcP, hrP⟩ (h.not_C_R_prim wf)
         | push l n hl hts => exact Or.inl ⟨_, rfl, hts⟩
-        | foreign l' d' hnl hts hd =>
-          rcases base with hl | hc
-          · exact absurd hl hnl
-          · exact Or.inr hc
-        | foreignRb fts h1 h2 =>
-          rcases base with hl | hc
-          · exact (mono.t (Or.inl hl)).elim Or.inl (fun x => x.elim Or.inr (fun hr => by
-              have hrP := grS ep (fun hr0 => by
-                obtain ⟨l, hl1, hl2⟩ := hl
-                exact absurd hr0 (not_R_of_noRec ((hkm.lk l hl1 hl2).2.2))) hr
-              exact absurd ⟨hcP, hrP⟩ (h.not_C_R_prim wf)))
+        | other ks' o =>
+          rcases base with ⟨l, hl, hts⟩ | hc
+          · exact Or.inl ⟨l, (o.lk l hts).2 hl, hts⟩
           · exact Or.inr (mono.c hc)
       · simp only [e, if_false]; exact base
+
+/-- a request of another transaction on one of T's keys -/
+theorem GInv.other {t : Txn} {s : Store} (wf : TxnWF t) (h : GInv t s) {m : Mut} (hm : m ∈ t.muts)
+    {ks' : KeyState} (o : OtherStep t.start (s m.key) ks') :
+    GInv t (s.set m.key ks') ∧ SMono t s (s.set m.key ks') := by
+  have hC : HasC t.start ks' → HasC t.start (s m.key) := by
+    rintro ⟨w, hw, hs, hk⟩; exact ⟨w, (o.ws w hs).1 hw, hs, hk⟩
+  have hR : HasR t.start ks' → HasR t.start (s m.key) := by
+    rintro ⟨w, hw, hs, hk⟩; exact ⟨w, (o.ws w hs).1 hw, hs, hk⟩
+  exact GInv.set wf h hm (KStep.other ks' o)
+    (fun _ hnc hc => absurd (hC hc) hnc) (fun _ hnc hc => absurd (hC hc) hnc) (fun _ hnr hr => absurd (hR hr) hnr)
+
+/-- a change of a key that is not one of T's keys -/
+theorem GInv.set_nonkey {t : Txn} {s : Store} (wf : TxnWF t) (h : GInv t s) {k : Nat}
+    (hk : ∀ m ∈ t.muts, m.key ≠ k) (v : KeyState) :
+    GInv t (s.set k v) ∧ SMono t s (s.set k v) := by
+  have hget : ∀ m ∈ t.muts, (s.set k v) m.key = s m.key := fun m hm => Store.set_other s v (hk m hm)
+  obtain ⟨mp, hmp, hmpk⟩ := wf.prim
+  have hP : (s.set k v) t.primary = s t.primary := hmpk ▸ hget mp hmp
+  refine ⟨⟨?_, ?_, ?_, ?_⟩, ?_⟩
+  · intro m hm; rw [hget m hm]; exact h.k m hm
+  · intro m hm np hc; rw [hget m hm] at hc; rw [hP]; exact h.c m hm np hc
+  · intro m hm np hr; rw [hget m hm] at hr; rw [hP]; exact h.r m hm np hr
+  · intro hc m hm; rw [hP] at hc; rw [hget m hm]; exact h.d hc m hm
+  · rintro k' ⟨m, hm, rfl⟩
+    rw [hget m hm]; exact KMono.refl _ _
 
 end NoKV.Client
